@@ -53,7 +53,18 @@ def _is_constant_expr(prog: Program, mod: Module, e: ast.AST) -> bool:
         return _is_constant_expr(prog, mod, e.left) and _is_constant_expr(prog, mod, e.right)
     if isinstance(e, ast.Tuple):
         return all(_is_constant_expr(prog, mod, x) for x in e.elts)
+    if isinstance(e, ast.Call) and isinstance(e.func, ast.Name) and e.func.id == "object" and not e.args and not e.keywords:
+        return True      # a sentinel: no state, compared by identity only
+    if isinstance(e, ast.Subscript) and isinstance(e.value, (ast.Name, ast.Attribute)):
+        # a type alias: Tuple[float, float], Optional[np.ndarray], typing.Callable[..]
+        root = e.value.id if isinstance(e.value, ast.Name) else (dotted(e.value) or "").split(".")[0]
+        src = mod.imports.get(root, (None, None))[0]
+        if src in ("typing", "collections.abc", "typing_extensions") or root in ("tuple", "list", "dict", "type", "set", "frozenset"):
+            return True
     if isinstance(e, ast.Name):
+        import builtins as _b
+        if e.id not in mod.imports and e.id not in mod.functions and e.id not in mod.classes and isinstance(getattr(_b, e.id, None), type):
+            return True  # a builtin class (exception types in a tuple for an except clause, int / float as converters)
         tgt = prog.resolve_symbol(mod, e.id)
         if tgt is not None:
             return True  # function / class / module
@@ -193,10 +204,23 @@ def run(prog: Program, rep, tier: str) -> None:
         raise AnalysisError("eval.warn_once has vanished")
     inner = list(wo.nested.values())
     ok = len(inner) == 1
+
+    def only_logs(fn_) -> bool:
+        calls_ = [n for n in own_nodes(fn_.node) if isinstance(n, ast.Call)]
+        return all((dotted(c.func) or "").startswith("logger.") for c in calls_) and not [r for r in own_nodes(fn_.node) if isinstance(r, ast.Return) and r.value is not None]
     if ok:
-        w = inner[0]
-        calls = [n for n in own_nodes(w.node) if isinstance(n, ast.Call)]
-        ok = all((dotted(c.func) or "").startswith("logger.") for c in calls) and not [r for r in own_nodes(w.node) if isinstance(r, ast.Return) and r.value is not None]
+        ok = only_logs(inner[0])
+    elif not inner:
+        # the same thing as a small callable object: `return _OnceWarning(args)` whose __call__ only logs and returns nothing
+        from .common import returns_of as _rets
+        rs_ = _rets(wo)
+        cls_ = None
+        if len(rs_) == 1 and isinstance(rs_[0].value, ast.Call):
+            for t_ in prog.resolve_call_target(wo, rs_[0].value):
+                if isinstance(t_, ClassInfo):
+                    cls_ = t_
+        if cls_ is not None and not cls_.bases and "__call__" in cls_.methods:
+            ok = all(only_logs(m_) for nm_, m_ in cls_.methods.items() if nm_ != "__init__")
     rep.check(ok, "module-state", wo.qualname, "warn_once", "the warn-once closure only logs and returns nothing (its flag cannot reach numerics)", wo.loc())
 
     # ---- rule 2: Params never written ----------------------------------------------------------
